@@ -192,6 +192,22 @@ Theorem c09_run_sched_bracket : forall (K : consts) (s : st) (calls : list aspec
 Proof. exact run_sched_bracket. Qed.
 Print Assumptions c09_run_sched_bracket.
 
+(* Every interleaving (calls and message appenders): every job that ends is `completed` (status 0; the error path is
+   unreachable without an I/O fault), and its created list is, in ascending to_seq order, exactly the plan of the
+   job_spawned frame of the same job — each entry naming a checkpoint frame of the stream with that to_seq and
+   to_message_id (`ended_ok`).  `job_consistent l` says this of every job_ended frame of l. *)
+Theorem c09_concurrent_jobs_create_announced_plan : forall (K : consts) (s : st) (calls : list aspec) (s' : st) (acts' : list astate),
+  valid (log s) -> job_consistent (log s) ->
+  sys_steps K (s, map start_of calls) (s', acts') ->
+  job_consistent (log s').
+Proof. exact concurrent_jobs_create_announced. Qed.
+Print Assumptions c09_concurrent_jobs_create_announced_plan.
+
+Example c09_demo_concurrent_jobs :
+  (valid (log mm_state) /\ job_consistent (log mm_state))
+  /\ job_consistent mm_fixed /\ length (ended_made mm_fixed) = 2%nat.
+Proof. exact (conj mm_start_ok mm_fixed_consistent). Qed.
+
 (* S20, the scheduler before the fix: it handed its own earlier plan to the job although job_spawned announced the
    plan computed at spawn time.  Witness (finest interleaving, `run_fine`): a schedule call plans cut 2, an auto call
    checkpoints cut 2 meanwhile, the schedule call's spawn_job announces cut 1, the job re-creates cut 2 and never
